@@ -450,6 +450,21 @@ func ruleTick(c *Ctx) {
 				}
 				return true
 			})
+			// the promise recorded is the one gocoro.Add returned, and only when Add accepted the coroutine
+			okAdded := false
+			ast.Inspect(ifs.Body, func(n ast.Node) bool {
+				as, ok := n.(*ast.AssignStmt)
+				if !ok || len(as.Lhs) != 1 || !strings.HasSuffix(exprString(as.Lhs[0]), ".promise") {
+					return true
+				}
+				for _, a := range env.enclosingConds(ifs.Body, as) {
+					if strings.HasPrefix(a, "#1(") && strings.Contains(a, "Add(") {
+						okAdded = true
+					}
+				}
+				return true
+			})
+			c.check(okAdded, "tick/readd-only-when-added", ifs.Pos(), "the new instance is recorded only when the scheduler accepted it", "the background coroutine's promise is recorded on the branch where gocoro.Add did NOT accept it (or unconditionally): the next ticks see a nil/stale promise and add the coroutine again while an instance is running, or never again")
 			c.check(setLast && setPromise, "tick/readd-bookkeeping", ifs.Pos(), "start time and promise of the new instance are recorded", "the new instance's start time or promise is not recorded: one-at-a-time is no longer enforced")
 		}
 	}
